@@ -146,6 +146,8 @@ CORNERS = [
     (("star", ("rep", ("sym", "a"), 2, None)), "a{2,}*"),
     (("rep", ("eps",), 0, 3), "(){0,3}"), (("star", ("eps",)), "()*"),
     (("eps",), ""), (("eps",), "()"), (("eps",), "(())"),
+    (("rep", ("sym", "a"), 0, 2), "a{ ,2}"), (("rep", ("sym", "a"), 1, None), "a{1, }"), (("rep", ("sym", "a"), 0, None), "a{ , }"),
+    (("rep", ("sym", "a"), 0, 2), "a{\t, 2 }"),
     (("union", ("inter", ("sym", "a"), ("sym", "b")), ("sym", "a")), "a&b|a"),
     (("cat", ("sym", "a"), ("star", ("sym", "b"))), "ab*"),
     (("shuffle", ("cat", ("sym", "a"), ("sym", "b")), ("star", ("sym", "a"))), "ab^a*"),
